@@ -822,6 +822,27 @@ func c12Wrap() []c12Fail {
 			c.close()
 		}
 	}
+	// an entry that is looked up again and again still expires one age limit (60 s) after it was
+	// learned: the lookups do not prolong its life
+	{
+		c := c12NewWorld()
+		c.n.S.SetRouteTable([]tcpip.Route{{Destination: "\x0a\x00\x00\x00", Mask: "\xff\x00\x00\x00", NIC: 1}})
+		s := c.n.S
+		s.AddLinkAddress(1, k, macP)
+		for _, at := range []int{25, 50, 75} {
+			vtime.Advance(25 * time.Second)
+			m, _, err := s.GetLinkAddress(1, k, addrA4, ipv4.ProtocolNumber, &sleep.Waker{})
+			c.w.Settle()
+			c.take()
+			if at < 60 && (err != nil || m != macP) {
+				fails = append(fails, c12Fail{"refresh-harness", fmt.Sprintf("lookup %d s after learning returned (%x, %v)", at, string(m), err)})
+			}
+			if at > 60 && err == nil {
+				fails = append(fails, c12Fail{"entry-outlives-age-limit", fmt.Sprintf("a neighbour learned at t=0 and looked up at t=25 s and t=50 s is still reported (%x) at t=%d s, after its 60 s lifetime: lookups prolonged the entry, it is never resolved again", string(m), at)})
+			}
+		}
+		c.close()
+	}
 	// a lookup is waiting for neighbour k while so many other neighbours are learned that k's
 	// slot is taken over: the waiting operation must not be forgotten - it is released at once
 	// or at the latest when the retry budget is over
